@@ -3,7 +3,7 @@ package main
 // Runs per tier (quick, thorough), calibrated on 16 cores: quick 20-45 s per property,
 // thorough 10-20 min. One place, so cost tuning never touches a check.
 var tierRuns = map[string][2]int{
-	"C01": {3000, 90000},
+	"C01": {5000, 90000},
 	"C02": {3000, 70000},
 	"C03": {6000, 200000},
 	"C04": {288, 8000},
